@@ -4,10 +4,14 @@ package subscriber
 
 import (
 	"bufio"
+	"crypto/md5"
 	"fmt"
 	"os"
+	"runtime"
+	"sort"
 	"strconv"
 	"strings"
+	"sync"
 	"testing"
 
 	"github.com/veesix-networks/osvbng/pkg/config/vlan"
@@ -41,7 +45,13 @@ func vfMatch(g *SubscriberGroupsConfig, m GroupMatch, ok bool) string {
 	if !ok {
 		return "none"
 	}
+	if g == nil {
+		return "MATCHONNILCONFIG"
+	}
 	grp := g.Groups[m.Name]
+	if grp == nil {
+		return "NILGROUPMATCHED"
+	}
 	idx := -1
 	for i := range grp.VLANs {
 		if &grp.VLANs[i] == m.VR {
@@ -52,6 +62,389 @@ func vfMatch(g *SubscriberGroupsConfig, m GroupMatch, ok bool) string {
 		return "WRONGGROUPPTR"
 	}
 	return vfEncode(m.Name) + "#" + strconv.Itoa(idx)
+}
+
+func vfParse(s string) string {
+	l, err := vlan.ParseVLANRange(s)
+	if err != nil {
+		return "err"
+	}
+	if len(l) == 0 {
+		return "ok EMPTYLIST"
+	}
+	r := fmt.Sprintf("ok %d %d %d", l[0], l[len(l)-1], len(l))
+	for i := range l {
+		if int(l[i]) != int(l[0])+i {
+			return r + " NONCONSECUTIVE"
+		}
+	}
+	return r
+}
+
+func vfCVLAN(s string) string {
+	isAny, c, err := vlan.ParseCVLAN(s)
+	switch {
+	case err != nil:
+		return "err"
+	case isAny:
+		if c != 0 {
+			return "any NONZERO"
+		}
+		return "any"
+	default:
+		return fmt.Sprintf("exact %d", c)
+	}
+}
+
+// ValidateMatchIndex is the exported entry point pkg/configmgr/conf.go:280 calls with the
+// candidate's SubscriberGroups before anything is applied.
+func vfValidate(cfg *SubscriberGroupsConfig) string {
+	verr := ValidateMatchIndex(cfg)
+	if verr == nil {
+		return "valid"
+	}
+	var s, c int
+	var prev, name string
+	msg := verr.Error()
+	if strings.Contains(msg, "cvlan any") {
+		fmt.Sscanf(msg, "subscriber-group VLAN collision on svlan %d cvlan any: claimed by both %q and %q", &s, &prev, &name)
+		return fmt.Sprintf("collision %d any %s %s", s, vfEncode(prev), vfEncode(name))
+	}
+	fmt.Sscanf(msg, "subscriber-group VLAN collision on svlan %d cvlan %d: claimed by both %q and %q", &s, &c, &prev, &name)
+	return fmt.Sprintf("collision %d c%d %s %s", s, c, vfEncode(prev), vfEncode(name))
+}
+
+// tokens f[p:] = G {name R {sv cv}}; R = -1 is a nil *SubscriberGroup entry in the map
+func vfReadConfig(f []string, p int) (*SubscriberGroupsConfig, int) {
+	ng, _ := strconv.Atoi(f[p])
+	p++
+	cfg := &SubscriberGroupsConfig{Groups: map[string]*SubscriberGroup{}}
+	for i := 0; i < ng; i++ {
+		name := vfDecode(f[p])
+		nr, _ := strconv.Atoi(f[p+1])
+		p += 2
+		if nr < 0 {
+			cfg.Groups[name] = nil
+			continue
+		}
+		g := &SubscriberGroup{}
+		for j := 0; j < nr; j++ {
+			g.VLANs = append(g.VLANs, VLANRange{SVLAN: vfDecode(f[p]), CVLAN: vfDecode(f[p+1])})
+			p += 2
+		}
+		cfg.Groups[name] = g
+	}
+	return cfg, p
+}
+
+func vfQueries(cfg *SubscriberGroupsConfig, f []string, p int) []string {
+	nq, _ := strconv.Atoi(f[p])
+	p++
+	var res []string
+	// several rebuilds: Go map iteration order differs between them
+	idxs := []*MatchIndex{BuildMatchIndex(cfg), BuildMatchIndex(cfg), BuildMatchIndex(cfg)}
+	for q := 0; q < nq; q++ {
+		s, _ := strconv.Atoi(f[p])
+		c, _ := strconv.Atoi(f[p+1])
+		p += 2
+		m, ok := idxs[0].Lookup(uint16(s), uint16(c))
+		r := vfMatch(cfg, m, ok)
+		for _, ix := range idxs[1:] {
+			m2, ok2 := ix.Lookup(uint16(s), uint16(c))
+			if vfMatch(cfg, m2, ok2) != r {
+				r = "NONDETERMINISTIC"
+			}
+		}
+		m3, ok3 := idxs[0].Lookup(uint16(s), uint16(c))
+		if vfMatch(cfg, m3, ok3) != r && r != "NONDETERMINISTIC" {
+			r = "UNSTABLE"
+		}
+		res = append(res, r)
+	}
+	return res
+}
+
+// ---- exhaustive sweep: every (S-VLAN, C-VLAN) in 0..4095 x 0..4095 --------------------------
+// The reference is the quadratic scan of the property statement, written here from the parsed
+// ranges only (names in byte order, ranges in declaration order, exact selector first, wildcard
+// second); it does not use BuildMatchIndex or any of its data structures.
+type vfRefRange struct {
+	member [4096]bool
+	any    bool
+	cv     uint16
+	tok    int
+}
+
+type vfSweepCtx struct {
+	toks    []string // token id -> text; 0 = "none"
+	tokName []string
+	tokGrp  []*SubscriberGroup
+	byVR    map[*VLANRange]int
+	ref     []*vfRefRange
+}
+
+func vfSweepPrepare(cfg *SubscriberGroupsConfig) *vfSweepCtx {
+	ctx := &vfSweepCtx{toks: []string{"none"}, tokName: []string{""}, tokGrp: []*SubscriberGroup{nil},
+		byVR: map[*VLANRange]int{}}
+	names := []string{}
+	for n, g := range cfg.Groups {
+		if g != nil {
+			names = append(names, n)
+		}
+	}
+	sort.Slice(names, func(i, j int) bool { // byte-wise, spelled out
+		a, b := []byte(names[i]), []byte(names[j])
+		for k := 0; k < len(a) && k < len(b); k++ {
+			if a[k] != b[k] {
+				return a[k] < b[k]
+			}
+		}
+		return len(a) < len(b)
+	})
+	for _, n := range names {
+		g := cfg.Groups[n]
+		for i := range g.VLANs {
+			vr := &g.VLANs[i]
+			id := len(ctx.toks)
+			ctx.toks = append(ctx.toks, vfEncode(n)+"#"+strconv.Itoa(i))
+			ctx.tokName = append(ctx.tokName, n)
+			ctx.tokGrp = append(ctx.tokGrp, g)
+			ctx.byVR[vr] = id
+			l, err := vlan.ParseVLANRange(vr.SVLAN)
+			if err != nil {
+				continue
+			}
+			isAny, cv, err := vlan.ParseCVLAN(vr.CVLAN)
+			if err != nil {
+				continue
+			}
+			rr := &vfRefRange{any: isAny, cv: cv, tok: id}
+			for _, s := range l {
+				if s < 4096 {
+					rr.member[s] = true
+				}
+			}
+			ctx.ref = append(ctx.ref, rr)
+		}
+	}
+	return ctx
+}
+
+func (ctx *vfSweepCtx) tokenOf(m GroupMatch, ok bool) int {
+	if !ok {
+		return 0
+	}
+	id, found := ctx.byVR[m.VR]
+	if !found || ctx.tokName[id] != m.Name || ctx.tokGrp[id] != m.Group {
+		return -1
+	}
+	return id
+}
+
+func vfSweep(cfg *SubscriberGroupsConfig) string {
+	ctx := vfSweepPrepare(cfg)
+	idx := BuildMatchIndex(cfg)
+	idx2 := BuildMatchIndex(cfg)
+	rows := make([]string, 4096)
+	hits := make([]int, 4096)
+	type diff struct {
+		s, c   int
+		im, rf int
+	}
+	first := make([]*diff, 4096)
+	nw := runtime.NumCPU()
+	if nw > 8 {
+		nw = 8
+	}
+	var wg sync.WaitGroup
+	for w := 0; w < nw; w++ {
+		wg.Add(1)
+		go func(w int) {
+			defer wg.Done()
+			defer func() {
+				if r := recover(); r != nil {
+					rows[w] = fmt.Sprintf("PANIC:%v", r)
+				}
+			}()
+			for s := w; s < 4096; s += nw {
+				var cover []*vfRefRange
+				for _, rr := range ctx.ref {
+					if rr.member[s] {
+						cover = append(cover, rr)
+					}
+				}
+				var sb strings.Builder
+				run, cur := 0, -2
+				for c := 0; c < 4096; c++ {
+					m, ok := idx.Lookup(uint16(s), uint16(c))
+					im := ctx.tokenOf(m, ok)
+					m2, ok2 := idx2.Lookup(uint16(s), uint16(c))
+					if ctx.tokenOf(m2, ok2) != im {
+						im = -3 // two rebuilds disagree
+					}
+					rf := 0
+					for _, rr := range cover {
+						if !rr.any && rr.cv == uint16(c) {
+							rf = rr.tok
+							break
+						}
+					}
+					if rf == 0 {
+						for _, rr := range cover {
+							if rr.any {
+								rf = rr.tok
+								break
+							}
+						}
+					}
+					if im != rf && first[s] == nil {
+						first[s] = &diff{s, c, im, rf}
+					}
+					if im > 0 {
+						hits[s]++
+					}
+					if im != cur {
+						if run > 0 {
+							fmt.Fprintf(&sb, "%dx%s,", run, ctx.name(cur))
+						}
+						cur, run = im, 0
+					}
+					run++
+				}
+				fmt.Fprintf(&sb, "%dx%s", run, ctx.name(cur))
+				rows[s] = sb.String()
+			}
+		}(w)
+	}
+	wg.Wait()
+	var tb strings.Builder
+	nruns, total := 0, 0
+	for s := 0; s < 4096; {
+		e := s
+		for e < 4096 && rows[e] == rows[s] {
+			e++
+		}
+		if nruns > 0 {
+			tb.WriteString(";")
+		}
+		fmt.Fprintf(&tb, "%d*[%s]", e-s, rows[s])
+		nruns++
+		s = e
+	}
+	d := "none"
+	for s := 0; s < 4096; s++ {
+		total += hits[s]
+		if first[s] != nil && d == "none" {
+			f := first[s]
+			d = fmt.Sprintf("%d:%d:lookup=%s:harnessref=%s", f.s, f.c, ctx.name(f.im), ctx.name(f.rf))
+		}
+	}
+	return fmt.Sprintf("md5=%x hits=%d rowruns=%d diff=%s", md5.Sum([]byte(tb.String())), total, nruns, d)
+}
+
+func (ctx *vfSweepCtx) name(id int) string {
+	switch {
+	case id == -1:
+		return "FOREIGNMATCH"
+	case id == -3:
+		return "NONDETERMINISTIC"
+	case id < 0 || id >= len(ctx.toks):
+		return "BADTOKEN"
+	}
+	return ctx.toks[id]
+}
+
+// ---- every rune through the parsers ---------------------------------------------------------
+func vfRunes(kind string, lo, hi int) string {
+	var sb strings.Builder
+	prev, start, last := "err", 0, 0
+	flush := func() {
+		if prev != "err" {
+			if sb.Len() > 0 {
+				sb.WriteString(",")
+			}
+			fmt.Fprintf(&sb, "%d-%d=%s", start, last, strings.ReplaceAll(prev, " ", "_"))
+		}
+	}
+	for r := lo; r <= hi; r++ {
+		if r >= 0xD800 && r <= 0xDFFF {
+			continue
+		}
+		u := string(rune(r))
+		var o string
+		switch kind {
+		case "pl":
+			o = vfParse(u + "7")
+		case "pt":
+			o = vfParse("7" + u)
+		case "pd":
+			o = vfParse("7" + u + "-" + u + "9")
+		case "pa":
+			o = vfParse(u)
+		case "pm":
+			o = vfParse("1" + u + "2")
+		case "cl":
+			o = vfCVLAN(u + "aNy")
+		case "ct":
+			o = vfCVLAN("5" + u)
+		case "ca":
+			o = vfCVLAN(u)
+		case "cy":
+			o = vfCVLAN("a" + u + "y")
+		default:
+			o = "badkind"
+		}
+		if o != prev || r != last+1 {
+			flush()
+			prev, start = o, r
+		}
+		last = r
+	}
+	flush()
+	if sb.Len() == 0 {
+		return "nothing"
+	}
+	return sb.String()
+}
+
+func vfCase(f []string) (res string) {
+	defer func() {
+		if r := recover(); r != nil {
+			res = fmt.Sprintf("panic %.60v", r)
+			res = strings.Join(strings.Fields(res), "_")
+		}
+	}()
+	switch f[0] {
+	case "parse":
+		return vfParse(vfDecode(f[1]))
+	case "cvlan":
+		return vfCVLAN(vfDecode(f[1]))
+	case "cfg":
+		cfg, p := vfReadConfig(f, 1)
+		res := []string{vfValidate(cfg), ";"}
+		res = append(res, vfQueries(cfg, f, p)...)
+		return strings.Join(res, " ")
+	case "cfgnil":
+		// what Commit passes when the candidate has no subscriber-groups section, and a nil index
+		res := []string{vfValidate(nil), ";"}
+		res = append(res, vfQueries(nil, f, 1)...)
+		var nilIdx *MatchIndex
+		if _, ok := nilIdx.Lookup(10, 100); ok {
+			res = append(res, "NILINDEXMATCH")
+		}
+		if _, ok := (&MatchIndex{}).Lookup(10, 100); ok {
+			res = append(res, "ZEROINDEXMATCH")
+		}
+		return strings.Join(res, " ")
+	case "sweep":
+		cfg, _ := vfReadConfig(f, 1)
+		return vfValidate(cfg) + " ; " + vfSweep(cfg)
+	case "runes":
+		lo, _ := strconv.Atoi(f[2])
+		hi, _ := strconv.Atoi(f[3])
+		return vfRunes(f[1], lo, hi)
+	}
+	return "badline"
 }
 
 func TestVerifC14(t *testing.T) {
@@ -74,81 +467,6 @@ func TestVerifC14(t *testing.T) {
 		if len(f) == 0 {
 			continue
 		}
-		switch f[0] {
-		case "parse":
-			l, err := vlan.ParseVLANRange(vfDecode(f[1]))
-			if err != nil {
-				fmt.Fprintln(w, "err")
-			} else {
-				fmt.Fprintf(w, "ok %d %d %d\n", l[0], l[len(l)-1], len(l))
-			}
-		case "cvlan":
-			isAny, c, err := vlan.ParseCVLAN(vfDecode(f[1]))
-			switch {
-			case err != nil:
-				fmt.Fprintln(w, "err")
-			case isAny:
-				fmt.Fprintln(w, "any")
-			default:
-				fmt.Fprintf(w, "exact %d\n", c)
-			}
-		case "cfg":
-			ng, _ := strconv.Atoi(f[1])
-			p := 2
-			cfg := &SubscriberGroupsConfig{Groups: map[string]*SubscriberGroup{}}
-			for i := 0; i < ng; i++ {
-				name := vfDecode(f[p])
-				nr, _ := strconv.Atoi(f[p+1])
-				p += 2
-				g := &SubscriberGroup{}
-				for j := 0; j < nr; j++ {
-					g.VLANs = append(g.VLANs, VLANRange{SVLAN: vfDecode(f[p]), CVLAN: vfDecode(f[p+1])})
-					p += 2
-				}
-				cfg.Groups[name] = g
-			}
-			nq, _ := strconv.Atoi(f[p])
-			p++
-			var res []string
-			verr := ValidateMatchIndex(cfg)
-			if verr == nil {
-				res = append(res, "valid")
-			} else {
-				var s, c int
-				var prev, name string
-				msg := verr.Error()
-				if strings.Contains(msg, "cvlan any") {
-					fmt.Sscanf(msg, "subscriber-group VLAN collision on svlan %d cvlan any: claimed by both %q and %q", &s, &prev, &name)
-					res = append(res, fmt.Sprintf("collision %d any %s %s", s, vfEncode(prev), vfEncode(name)))
-				} else {
-					fmt.Sscanf(msg, "subscriber-group VLAN collision on svlan %d cvlan %d: claimed by both %q and %q", &s, &c, &prev, &name)
-					res = append(res, fmt.Sprintf("collision %d c%d %s %s", s, c, vfEncode(prev), vfEncode(name)))
-				}
-			}
-			res = append(res, ";")
-			// several rebuilds: Go map iteration order differs between them
-			idxs := []*MatchIndex{BuildMatchIndex(cfg), BuildMatchIndex(cfg), BuildMatchIndex(cfg)}
-			for q := 0; q < nq; q++ {
-				s, _ := strconv.Atoi(f[p])
-				c, _ := strconv.Atoi(f[p+1])
-				p += 2
-				m, ok := idxs[0].Lookup(uint16(s), uint16(c))
-				r := vfMatch(cfg, m, ok)
-				for _, ix := range idxs[1:] {
-					m2, ok2 := ix.Lookup(uint16(s), uint16(c))
-					if vfMatch(cfg, m2, ok2) != r {
-						r = "NONDETERMINISTIC"
-					}
-				}
-				m3, ok3 := idxs[0].Lookup(uint16(s), uint16(c))
-				if vfMatch(cfg, m3, ok3) != r && r != "NONDETERMINISTIC" {
-					r = "UNSTABLE"
-				}
-				res = append(res, r)
-			}
-			fmt.Fprintln(w, strings.Join(res, " "))
-		default:
-			fmt.Fprintln(w, "badline")
-		}
+		fmt.Fprintln(w, vfCase(f))
 	}
 }
